@@ -643,7 +643,7 @@ def header_items(tier, seed):
 
 def run(tier, seed, rep, only=None):
     hi = header_items(tier, seed)
-    ai = air_items(tier, seed)
+    ai = air_items("thorough", seed)  # the on-air part always runs at what used to be the thorough bounds (every type x every length; it is cheap)
     if not only or "header" in only:
         pmap(w_header, hi, rep)
     if not only or "air" in only:
@@ -661,7 +661,7 @@ def run(tier, seed, rep, only=None):
              + ("; every one of the 4096x4096 (origin, destination) pairs" if tier == "thorough" else "")
              + ". On the air: every message length 0..144 x types x send()/write() x 8 (sender, destination) routes written by a real "
                "RF24Network node to a hardware-level listener on the next hop's pipe address; all 256 types at "
-             + ("every length" if tier == "thorough" else "8 boundary lengths")
+             + "every length"
              + "; every length with nobody answering; next hop going silent after 1, 2, 5 fragments. One case = one real execution; "
                "states = distinct inputs executed, transitions = executions; non-trivial = distinct on-air cases + codec work items.",
         bounds=dict(header_items=len(hi), air_items=len(ai), air_writes=sum(len(i[3]) for i in ai), lengths="0..144",
